@@ -77,7 +77,7 @@ class SRRLaser(Laser):
 
     @property
     def shape(self) -> tuple[int, ...]:
-        return (self.data[1].shape[0], self.data[0].shape[0], len(self.data))
+        return (self.data[0].shape[0], self.data[1].shape[0], len(self.data))
 
     def add(
         self,
